@@ -36,6 +36,13 @@ def atomic(st, v):
     return z3.Or(z3.Not(is_ref(v)), c == cid("function"), c == cid("module"))
 
 
+def leaf(st, v):
+    """heap objects of an immutable built-in scalar type or a subclass of one (bytes, int/str subclasses, module
+    subclasses): A-LEAF assumes they carry no mutable state, so handing them on uncopied shares nothing mutable"""
+    c = st.get("cls_of", a_of(v))
+    return z3.And(is_ref(v), z3.Or(*[subcls(c, cid(n)) for n in ("bool", "int", "float", "str", "bytes", "module")]))
+
+
 def is_spec(eng, st, v):
     m = meta_of(eng, st, v)
     return z3.And(is_ref(v), is_ref(m))
@@ -100,6 +107,9 @@ def assume_spec_shape(eng, st, v):
                                         a_of(z3.Select(st.get("dval", AT), k)) != a_of(v)))):
         st.assume(z3.Implies(is_ref(m), g))
     st.assume(z3.Implies(is_ref(v), z3.And(a_of(v) >= 1000, a_of(v) < st.alloc, st.get("cls_of", a_of(v)) >= 200)))
+    # A-RECV: the objects these functions operate on are not instances of (subclasses of) immutable built-in scalar
+    # types (int, str, bytes, module ...): spec classes and the receivers of mutate_attr do not derive from them
+    st.assume(z3.Not(leaf(st, v)))
     # raw assignment is refused only for attributes masked by a descriptor (property without setter)
     nq = z3.Const("n!mr", Val)
     mm, asp = managed(eng, st, v, nq)
@@ -280,8 +290,9 @@ def copy_rel(eng, pre, post, res, v):
         z3.Implies(atomic(pre, v), res == v),
         z3.Implies(z3.And(is_spec(eng, pre, v), dnc_class(eng, pre, v)), res == v),
         z3.Implies(z3.And(z3.Not(atomic(pre, v)), z3.Not(z3.And(is_spec(eng, pre, v), dnc_class(eng, pre, v)))),
-                   z3.And(is_ref(res), a_of(res) >= pre.alloc, a_of(res) < post.alloc,
-                          post.get("cls_of", a_of(res)) == pre.get("cls_of", a_of(v)))))
+                   z3.Or(z3.And(leaf(pre, v), res == v),
+                         z3.And(is_ref(res), a_of(res) >= pre.alloc, a_of(res) < post.alloc,
+                                post.get("cls_of", a_of(res)) == pre.get("cls_of", a_of(v))))))
 
 
 _defs = [0]
@@ -320,25 +331,36 @@ def slot_defs(eng, sink, pre, v):
         return z3.And(z3.Not(is_absent(x1)), deq(x1, x0), z3.Implies(atomic(pre, x0), x1 == x0),
                       z3.Implies(z3.Not(atomic(pre, x0)), z3.Or(
                           z3.And(is_ref(x1), a_of(x1) >= pre.alloc),
+                          z3.And(leaf(pre, x0), x1 == x0),
                           z3.And(is_spec(eng, pre, x0), dnc_class(eng, pre, x0), x1 == x0))))
+    def rebound(post, x1, x0, new):
+        """x1 is a new method object: the function of x0 bound to the copy"""
+        F, S = STR.sid("__func__"), STR.sid("__self__")
+        return z3.And(is_ref(x1), a_of(x1) >= pre.alloc, a_of(x1) < post.alloc, post.get("cls_of", a_of(x1)) == cid("method"),
+                      z3.Select(post.get("idict", a_of(x1)), F) == lookup(eng, pre, x0, "__func__"),
+                      z3.Select(post.get("idict", a_of(x1)), S) == new)
     DNC = define_pred(sink, "DNC", [I], dnc_body)
     OWN = define_pred(sink, "OWN", [I], own_body)
     CPR = define_pred(sink, "CPR", [Val, Val], cpr_body)
-    return DNC, OWN, CPR
+    return DNC, OWN, CPR, rebound
 
 
-def slot_rel(defs, x1, x0, s):
-    DNC, OWN, CPR = defs
-    return z3.If(z3.Or(is_absent(x0), OWN(s)), is_absent(x1), z3.If(DNC(s), x1 == x0, CPR(x1, x0)))
+def slot_rel(defs, x1, x0, s, post, new):
+    """slot s of a copy `new` (value x1, read in state post) against the same slot of the original (x0):
+    absent stays absent; a bound method of the original itself is re-bound to the copy; do_not_copy attributes
+    are carried by identity; everything else is a mutate-safe copy"""
+    DNC, OWN, CPR, rebound = defs
+    return z3.If(is_absent(x0), is_absent(x1),
+                 z3.If(OWN(s), rebound(post, x1, x0, new), z3.If(DNC(s), x1 == x0, CPR(x1, x0))))
 
 
 def spec_copy_slots(eng, sink, pre, post, res, v, defs=None):
     """slot-wise relation between a spec instance and its copy (contract of DeepCopyMethod.deepcopy):
-    do_not_copy attributes by identity, bound methods of the instance dropped, everything else copied"""
+    do_not_copy attributes by identity, bound methods of the instance re-bound to the copy, everything else copied"""
     defs = defs or slot_defs(eng, sink, pre, v)
     s = z3.Int("s!scs")
     d0, d1 = pre.get("idict", a_of(v)), post.get("idict", a_of(res))
-    return z3.ForAll([s], slot_rel(defs, z3.Select(d1, s), z3.Select(d0, s), s))
+    return z3.ForAll([s], slot_rel(defs, z3.Select(d1, s), z3.Select(d0, s), s, post, res))
 
 
 class ProtectCopy(Contract):
@@ -375,7 +397,7 @@ register(ProtectCopy)
 @register
 class DeepCopy(Contract):
     """__deepcopy__ of a spec instance: a new instance of the same class whose attributes are copies,
-    except do_not_copy attributes (carried by identity) and bound methods of the instance (dropped)"""
+    except do_not_copy attributes (carried by identity) and bound methods of the instance (re-bound to the copy)"""
     qual = CORE + ":DeepCopyMethod.deepcopy"
     raises = {"*": "exc_any"}
 
@@ -417,12 +439,12 @@ class DeepCopy(Contract):
                                st.get("cls_of", a_of(new)) == pre.get("cls_of", a_of(v)))),
                 ("receiver", st.get("idict", a_of(v)) == pre.get("idict", a_of(v))),
                 # every attribute visited so far has been carried over according to the slot relation ...
-                ("copied", z3.ForAll([j], z3.Implies(z3.And(j >= 0, j < i),
-                                                     slot_rel(defs, z3.Select(d1, kj), z3.Select(d0, kj), kj)),
-                                     patterns=[z3.Select(p.keys, j)])),
+                ("copied", FA([j], z3.Implies(z3.And(j >= 0, j < i),
+                                              slot_rel(defs, z3.Select(d1, kj), z3.Select(d0, kj), kj, st, new)),
+                              [z3.Select(p.keys, j)])),
                 # ... and the copy holds nothing else
-                ("nothing-else", z3.ForAll([s], z3.Implies(z3.Not(is_absent(x1)), z3.And(
-                    p.pos(s) >= 0, p.pos(s) < i, z3.Select(p.keys, p.pos(s)) == s)), patterns=[x1]))]
+                ("nothing-else", FA([s], z3.Implies(z3.Not(is_absent(x1)), z3.And(
+                    p.pos(s) >= 0, p.pos(s) < i, z3.Select(p.keys, p.pos(s)) == s)), [x1]))]
 
     def mod0(lc, pre):
         return [a_of(pre.env["new"])]
@@ -596,7 +618,7 @@ def frame_slots(eng, pre, post, src, dst, attr, same, defs=None, skip=None):
         keep = z3.And(keep, z3.Or(skip, z3.Not(reach(m, attr, vstr(s)))))
     else:
         keep = z3.And(keep, z3.Not(reach(m, attr, vstr(s))))
-    rel = x1 == x0 if defs is None else z3.If(same, x1 == x0, slot_rel(defs, x1, x0, s))
+    rel = x1 == x0 if defs is None else z3.If(same, x1 == x0, slot_rel(defs, x1, x0, s, post, dst))
     return z3.ForAll([s], z3.Implies(keep, rel))
 
 
